@@ -63,6 +63,9 @@ CLAIMED["C10"] = ("exploration", "exhaustive enumeration of pause histories: 15 
 CLAIMED["C11"] = ("model_checking", "explicit enumeration of all operation histories (runW, runE, reset, deepcopy, JSON reload) up to length 3 (thorough 4) over 13 models; every history replayed on a fresh real model; definition invariant (to_dict) in every state and result oracles on fresh states",
     "after every operation of every history the JSON-normalised to_dict must equal the initial one; a WNTRSimulator run on a fresh state (initial / after reset / reloaded / copy of fresh) must equal the first fresh run (1e-9), every EpanetSimulator run must equal the first one",
     "history prefixes are not merged (run-time state of live objects cannot be canonicalised); models are 4-node networks")
+CLAIMED["C19"] = ("exploration", "crossed enumeration of split/break calls (network variant x every pipe x 5 fractions x end x copy x mode) and of skeletonize calls (8 networks x all diameter assignments x thresholds x operation switches x max_cycles x exclusion lists x engine); structural oracles plus a before/after simulation for splits",
+    "every call of the crossed alphabets runs on the real morph functions; lengths, fraction, connectivity, elevation, polyline coordinates, vertex distribution, inherited attributes, no check valve, untouched input (return_copy) and untouched other elements are checked for split/break, unchanged heads/flows by simulation for splits; survival of tanks/reservoirs/pumps/valves/controlled elements, conservation of total demand at every pattern instant and the partition property of the map for skeletonize",
+    "networks of 5-6 nodes; the hydraulic clause is applied to pipes without minor loss and 0 < fraction < 1")
 NOT_YET = "check not built yet in this session (work in progress, see DESIGN.md section 4)"
 
 
